@@ -202,6 +202,26 @@ def apply_op(mk, psi, info, op, k):
         want = ref.sum_of_products([(before, inds), (_conj(before), binds)], out)
         mk.eq(f"op{k}: partial_trace_to_dense_canonical{where} == dense reduced state", rho, want.reshape(rho.shape))
         return psi, before
+    if kind == "clec":
+        # compute_local_expectation_canonical: a sum of local terms; with inplace=False (default) the caller's state AND
+        # its record must stay as they were (the canonicalisations happen on a private copy with a private record)
+        _, wheres, inplace = op
+        terms = {}
+        want = 0
+        v = before.reshape(-1)
+        for q_, w_ in enumerate(wheres):
+            G = mk.array(f"O{k}_{q_}", (d ** len(w_), d ** len(w_)), "real")
+            terms[w_] = G
+            want = want + ref.matmul(_conj(v).reshape(1, -1), ref.matmul(ref.embed(G, [d] * L, w_), v).reshape(-1, 1))[0, 0]
+        rec0 = info.get("cur_orthog")
+        snap = [np.array(t.data, dtype=t.data.dtype, copy=True) for t in psi]
+        val = psi.compute_local_expectation_canonical(terms, normalized=False, info=info, inplace=inplace)
+        mk.eq(f"op{k}: compute_local_expectation_canonical({wheres}, inplace={inplace}) == sum of <psi|G|psi>", val, want)
+        if not inplace:
+            mk.same(f"op{k}: inplace=False leaves the caller's record as it was", info.get("cur_orthog"), rec0)
+            for q_, (t, s0) in enumerate(zip(psi, snap)):
+                mk.eq(f"op{k}: inplace=False leaves site {q_} of the caller's state untouched", t.data, s0)
+        return psi, before
     if kind == "mag":
         i = op[1]
         val = psi.magnetization(i, "Z", info=info)
@@ -320,7 +340,8 @@ def canonical_mps(mk, L, c):
 _CONS = []
 for L_ in (3, 4):
     for c_ in range(L_):
-        for op_ in [("expec", (1, 0)), ("expec", (2, 0)), ("rdm", (1, 0)), ("rdm", (2, 0)), ("rdm", (0, 2)),
+        for op_ in [("clec", ((0,), (2, 1)), False), ("clec", ((1, 2), (0,)), False), ("clec", ((0, 1), (2,)), True),
+                    ("expec", (1, 0)), ("expec", (2, 0)), ("rdm", (1, 0)), ("rdm", (2, 0)), ("rdm", (0, 2)),
                     ("gate1", 0), ("gate1", 1), ("gate1", L_ - 1),
                     ("compress_site", 1), ("compress_site", 1, {"canonize": False}), ("compress_site", 0, {"canonize": False}),
                     ("compress_site", L_ - 1, {"canonize": False}),
@@ -330,6 +351,7 @@ for L_ in (3, 4):
                     ("measure", 1, 0, True), ("measure", L_ - 1, 0, True)]:
             quick = L_ == 3 and (op_[0] in ("expec", "mag", "svals", "schmidt", "measure") and (op_[1] == (1,) or op_[1] in (0, 1, 2) or op_[1] == (0, 1))
                                 or op_ in (("expec", (2, 0)), ("rdm", (1, 0)), ("rdm", (2, 0)), ("gate1", 0), ("gate1", 2))
+                                or (op_[0] == "clec" and c_ in (0, 2))
                                 or (op_[0] == "compress_site" and len(op_) > 2))
             _CONS.append({"L": L_, "c": c_, "op": op_, "_tiers": _Q if quick else _T, "_mandatory": bool(quick) or L_ == 3})
 # genuine range records (lo < hi): what a swap with absorb='both', a multi-site query or 'calc' leave behind
@@ -445,3 +467,30 @@ def record_parsing(mk):
     mk.same("pair kept", c1.parse_cur_orthog((1, 3))["cur_orthog"], (1, 3))
     mk.same("info wins", c1.parse_cur_orthog(0, {"cur_orthog": (2, 2)})["cur_orthog"], (2, 2))
     mk.same("None kept", c1.parse_cur_orthog(None)["cur_orthog"], None)
+
+
+@obligation(PROP, params=[{"spin": s} for s in (2, 3)], numeric=True)
+def magnetization_directions_numeric(mk, spin):
+    """[numeric-only supplement] magnetization(i, direction) for every direction on COMPLEX states (the symbolic cells use
+    real entries, for which <Sy> vanishes and a transposed operator is invisible): == <psi|S_dir on site i|psi>, physical
+    dimension 2 and 3, with and without a supplied record"""
+    mk.encodes(c1.MatrixProductState.magnetization)
+    if mk.sym:
+        mk.same("numeric-only obligation", True, True)
+        return
+    rng = np.random.default_rng(5 + spin)
+    L = 4
+    arrays = [rng.normal(size=((2, spin) if i in (0, L - 1) else (2, 2, spin))) + 1j * rng.normal(size=((2, spin) if i in (0, L - 1) else (2, 2, spin)))
+              for i in range(L)]
+    psi = qtn.MatrixProductState(arrays)
+    psi = psi / psi.norm()
+    v = np.asarray(psi.to_dense()).reshape(-1)
+    for dirn in ("X", "Y", "Z", "+", "-"):
+        S = np.asarray(qu.spin_operator(dirn, S=(spin - 1) / 2))
+        for i in range(L):
+            want = np.vdot(v, np.asarray(ref.embed(S, [spin] * L, (i,))) @ v)
+            mk.eq(f"[numeric-only] spin dim {spin}: magnetization({i}, '{dirn}') == <psi|S|psi>", psi.copy().magnetization(i, dirn), want, tol=1e-9)
+            info = {}
+            p2 = psi.copy()
+            p2.canonicalize_((i + 1) % L, info=info)
+            mk.eq(f"[numeric-only] spin dim {spin}: magnetization({i}, '{dirn}') with a record", p2.magnetization(i, dirn, info=info), want, tol=1e-9)
